@@ -304,6 +304,7 @@ class SymBool:
 # uninterpreted transcendental functions
 # --------------------------------------------------------------------------------------------------
 _UF = {}
+HASH_CONST = False
 
 
 def uf(name, arity=1):
@@ -341,8 +342,10 @@ class SymReal:
 
     def __hash__(self):
         # hashable so that memoising code (functools.lru_cache, dict keys) can take proxies: equal terms hash alike, and the equality test
-        # that follows a hash match is the symbolic == (a fork decided by the solver)
-        return self.t.hash()
+        # that follows a hash match is the symbolic == (a fork decided by the solver).  With HASH_CONST set (history units: "is a value kept
+        # from an earlier call reused for this one?") every proxy hashes alike, so that whether two keys are equal is always the solver's
+        # decision and never settled by the accident that two variables have different names.
+        return 0 if HASH_CONST else self.t.hash()
 
     # arithmetic --------------------------------------------------------------------------------
     def _bin(self, o, f):
